@@ -1074,7 +1074,7 @@ def r1e(ctx: RuleCtx) -> None:
     for k in doc:
         ctx.require(tab.get(k) is not None and mod.has_func(tab[k] or ''), f'documented intro-{k}.json has a configure-time producer ({tab.get(k)})', mod, '<module>',
                     f'INTRO_TYPES[{k!r}]', f'{IDEDOC} documents intro-{k}.json but INTRO_TYPES has no `func` producer for {k!r}')
-    gen = mod.func('generate_introspection_file')
+    gen = normal_func(mod, 'generate_introspection_file', inline=0)
     pb, pk = param(gen, 0, gen.name), param(gen, 1, gen.name)
     loc = Locals(gen)
     loops = [l for l in gen.body if isinstance(l, ast.For) and norm(l.iter) == 'INTRO_TYPES.items()' and isinstance(l.target, ast.Tuple) and len(l.target.elts) == 2]
@@ -1382,7 +1382,19 @@ def r2b(ctx: RuleCtx) -> None:
     imod = ctx.repo.module(MINSTALL)
     si = imod.func('Installer.should_install')
     dp = param(si, 0, 'should_install')
-    filt = list(dict.fromkeys(attrs_of(si, dp)))
+    def attrs_through(fn_: FuncNode, p_: str, depth: int = 2) -> T.List[str]:
+        out_ = list(attrs_of(fn_, p_))
+        if depth > 0:
+            for c_ in ast.walk(fn_):
+                if isinstance(c_, ast.Call) and recv(c_) == 'self' and imod.has_func(f'Installer.{call_method(c_)}'):
+                    callee_ = imod.func(f'Installer.{call_method(c_)}')
+                    for k_, a_ in bind_args(c_, callee_).items():
+                        if isinstance(a_, ast.Name) and a_.id == p_:
+                            out_ += attrs_through(callee_, k_, depth - 1)
+        return out_
+    filt = list(dict.fromkeys(attrs_through(si, dp)))
+    if len(filt) < 2:
+        raise Undecided(f'Installer.should_install: cannot see which fields of its argument decide ({filt})')
     ctx.floor('fields Installer.should_install filters on', len(filt), 2)
     lists = _install_lists(ctx)
     # every per-kind installer consults should_install for each element
@@ -1535,7 +1547,7 @@ def r2c(ctx: RuleCtx) -> None:
                     f'{l.iter.attr}: intro-installed.json keys come from {sorted(ksrc)} but {who} copies from {sorted(want_src)}', st[0])
         got_dst = (frozenset(vf - ksrc), vb)
         ok = got_dst == want_dst and f'attr:{var}.prefix' in fl.origins(val)
-        ctx.require(ok, f'{qn}: {l.iter.attr}: destination = prefix / .{"/".join(sorted(want_dst[0]))}{" / basename" if want_dst[1] else ""} like {who}', mod, qn, val,
+        judge(ctx, ok, f'{qn}: {l.iter.attr}: destination = prefix / .{"/".join(sorted(want_dst[0]))}{" / basename" if want_dst[1] else ""} like {who}', got_dst != want_dst, mod, qn, val,
                     f'{l.iter.attr}: intro-installed.json destination uses fields {sorted(got_dst[0])} (basename appended: {got_dst[1]}); {who} installs to '
                     f'{sorted(want_dst[0])} (basename appended: {want_dst[1]})', st[0])
     ctx.floor('installed categories compared with their installer', n, 5)
@@ -2066,10 +2078,20 @@ def r1g(ctx: RuleCtx) -> None:
 TEST_SOURCES = {'exe': ('exe', 'get_exe'), 'cmd_args': ('cmd_args',), 'depends': ('depends',)}
 
 
+_R2E_LOC: T.List[Locals] = []      # locals of the function being read (class tuples bound to a name are looked up there)
+
+
 def _isinstance_on(t: ast.AST, var: str) -> T.Optional[T.Set[str]]:
     if isinstance(t, ast.Call) and isinstance(t.func, ast.Name) and t.func.id == 'isinstance' and len(t.args) == 2 \
             and isinstance(t.args[0], ast.Name) and t.args[0].id == var:
-        names = {(attr_chain(x) or '?').split('.')[-1] for x in (t.args[1].elts if isinstance(t.args[1], ast.Tuple) else [t.args[1]])}
+        k = t.args[1]
+        if isinstance(k, ast.Name) and _R2E_LOC:
+            ds = _R2E_LOC[-1].defs.get(k.id, [])
+            if len(ds) == 1 and isinstance(ds[0], ast.Tuple):
+                k = ds[0]
+        names = {(attr_chain(x) or '?').split('.')[-1] for x in (k.elts if isinstance(k, ast.Tuple) else [k])}
+        if isinstance(k, ast.Name):
+            return None
         return None if '?' in names else names
     return None
 
@@ -2099,6 +2121,10 @@ def _classes_accepted(pm: T.Dict[ast.AST, ast.AST], node: ast.AST, var: str, sto
             conj = t.values if isinstance(t, ast.BoolOp) and isinstance(t.op, ast.And) else [t]
             disj = t.values if isinstance(t, ast.BoolOp) and isinstance(t.op, ast.Or) else None
             mentions = any(isinstance(x, ast.Name) and x.id == var for x in ast.walk(t))
+            if (isinstance(t, ast.Compare) and len(t.ops) == 1 and isinstance(t.ops[0], (ast.Is, ast.IsNot)) and isinstance(t.left, ast.Name) and t.left.id == var
+                    and isinstance(t.comparators[0], ast.Constant) and t.comparators[0].value is None) or (isinstance(t, ast.Name) and t.id == var):
+                cur = par
+                continue
             if disj is not None and mentions:
                 sets = [_isinstance_on(x, var) for x in disj]
                 if any(s_ is None for s_ in sets):
@@ -2123,18 +2149,39 @@ def _classes_accepted(pm: T.Dict[ast.AST, ast.AST], node: ast.AST, var: str, sto
     return frozenset(acc) if acc is not None else frozenset({'*'})
 
 
+def _attr_role(e: ast.AST, tv: str) -> T.Optional[str]:
+    if isinstance(e, ast.Call) and not e.args and isinstance(e.func, ast.Attribute):
+        e = e.func
+    c = attr_chain(e)
+    if c and c.split('.')[0] == tv and c.count('.') == 1:
+        for role, attrs in TEST_SOURCES.items():
+            if c.split('.')[1] in attrs:
+                return role
+    return None
+
+
 def _role_of(fn: FuncNode, pm: T.Dict[ast.AST, ast.AST], loc: Locals, tv: str, name: str, node: ast.AST) -> T.Optional[str]:
-    """Which part of the test object `tv` the local `name` holds at `node`: exe | cmd_args | depends."""
+    """Which part(s) of the test object `tv` the local `name` holds at `node`: exe | cmd_args | depends ('+'-joined when a loop chains several)."""
     cur: ast.AST = node
     while cur in pm:
         par = pm[cur]
         if isinstance(par, (ast.For, ast.comprehension)) and isinstance(par.target, ast.Name) and par.target.id == name:
-            c = attr_chain(par.iter)
-            if c and c.split('.')[0] == tv and c.count('.') == 1:
-                for role, attrs in TEST_SOURCES.items():
-                    if c.split('.')[1] in attrs:
-                        return role
-            return None
+            it = par.iter
+            if isinstance(it, ast.Call) and call_method(it) in ('chain',) and not it.keywords:
+                rs = []
+                for a in it.args:
+                    if isinstance(a, (ast.List, ast.Tuple)) and len(a.elts) == 1:
+                        r_ = _attr_role(a.elts[0], tv)
+                        r_ = 'exe' if r_ == 'exe' else None
+                    else:
+                        r_ = _attr_role(a, tv)
+                        r_ = r_ if r_ in ('cmd_args', 'depends') else None
+                    if r_ is None:
+                        return None
+                    rs.append(r_)
+                return '+'.join(rs)
+            r = _attr_role(it, tv)
+            return r if r in ('cmd_args', 'depends') else None
         cur = par
     for d in loc.defs.get(name, []):
         if d is None:
@@ -2154,19 +2201,72 @@ def _target_classes(fn: FuncNode, tv_loop: ast.For, sinks: T.List[T.Tuple[ast.AS
     loc = Locals(fn)
     tv = tv_loop.target.id  # type: ignore[attr-defined]
     out: T.Dict[str, T.Set[str]] = {}
-    for sink, val in sinks:
+    _R2E_LOC.append(loc)
+    work: T.List[T.Tuple[ast.AST, ast.AST, T.Optional[T.FrozenSet[str]], int, T.Tuple[T.Tuple[str, str], ...]]] = [(s_, v_, None, 0, ()) for s_, v_ in sinks]
+    expanded: T.List[T.Tuple[ast.AST, ast.AST]] = []
+    while work:
+        sink, val, outer, depth_, unwraps = work.pop()
         base = val
         while isinstance(base, ast.Attribute):
             base = base.value
         if not isinstance(base, ast.Name):
+            _R2E_LOC.pop()
             raise Undecided(f'{qn}: value reaching the sink is not a local: {short(val)}')
         role = _role_of(fn, pm, loc, tv, base.id, sink)
-        if role is None:
-            raise Undecided(f'{qn}: cannot tell which part of the test `{base.id}` comes from at `{short(sink)}`')
         cls = _classes_accepted(pm, sink, base.id, tv_loop, loc)
         if cls is None:
+            _R2E_LOC.pop()
             raise Undecided(f'{qn}: guard of `{short(sink)}` not understood')
-        out.setdefault(role, set()).update(cls)
+        if outer is not None and '*' not in outer:
+            # the classes tested on the alias further down restrict the value; an isinstance test on the source that guards an
+            # attribute access (`b = c.attr` under isinstance(c, K)) then is an unwrapping, reported as its own role
+            if isinstance(val, ast.Attribute) and '*' not in cls:
+                role_suffix = ''.join(f' (the .{val.attr} of a {k})' for k in sorted(cls)[:1])
+                cls = outer
+            else:
+                role_suffix = ''
+                cls = outer if '*' in cls else frozenset(cls & outer)
+        else:
+            role_suffix = ''
+        if role is None:
+            # an alias: `b = c`, `b = c.attr`, `b = None` in the branches above the sink
+            adefs = [st_ for st_ in ast.walk(tv_loop) if isinstance(st_, (ast.Assign, ast.AnnAssign)) and getattr(st_, 'value', None) is not None
+                     and isinstance(st_.targets[0] if isinstance(st_, ast.Assign) else st_.target, ast.Name)
+                     and (st_.targets[0] if isinstance(st_, ast.Assign) else st_.target).id == base.id]  # type: ignore[union-attr]
+            if not adefs or depth_ >= 4:
+                _R2E_LOC.pop()
+                raise Undecided(f'{qn}: cannot tell which part of the test `{base.id}` comes from at `{short(sink)}`')
+            # self-unwrapping re-definitions of the alias (`c = c.attr` under isinstance(c, K)) travel with it to the place where the role is known
+            for st_ in adefs:
+                v2 = st_.value
+                if isinstance(v2, ast.Attribute) and isinstance(v2.value, ast.Name) and v2.value.id == base.id:
+                    g_ = _classes_accepted(pm, st_, base.id, tv_loop, loc)
+                    if g_ is None or '*' in g_:
+                        _R2E_LOC.pop()
+                        raise Undecided(f'{qn}: unwrapping `{short(st_)}` is not guarded by an isinstance test on `{base.id}`')
+                    unwraps = unwraps + tuple((v2.attr, k_) for k_ in sorted(g_))
+            for st_ in adefs:
+                v2 = st_.value
+                if isinstance(v2, ast.Constant) and v2.value is None:
+                    continue
+                if isinstance(v2, ast.Attribute) and isinstance(v2.value, ast.Name) and v2.value.id == base.id:
+                    continue
+                b2 = v2
+                while isinstance(b2, ast.Attribute):
+                    b2 = b2.value
+                if isinstance(v2, ast.Call) and not v2.args and isinstance(v2.func, ast.Attribute) and _attr_role(v2, tv):
+                    expanded.append((st_, v2))
+                    out.setdefault(_attr_role(v2, tv) or '?', set()).update(cls if outer is None else (outer if '*' in cls else cls))
+                    continue
+                if not isinstance(b2, ast.Name) or b2.id == base.id:
+                    _R2E_LOC.pop()
+                    raise Undecided(f'{qn}: `{short(st_)}` is not a plain alias')
+                work.append((st_, v2, cls if outer is None else (outer if '*' in cls else frozenset(cls)), depth_ + 1, unwraps))
+            continue
+        for r1 in role.split('+'):
+            out.setdefault(r1 + role_suffix, set()).update(cls)
+            for attr_, k_ in unwraps:
+                out.setdefault(f'{r1} (the .{attr_} of a {k_})', set()).update(cls)
         # unwrapping re-definitions of the same local: `if isinstance(v, K): v = v.attr` makes the value behind a K a candidate too
         for d in ast.walk(tv_loop):
             if isinstance(d, ast.Assign) and len(d.targets) == 1 and isinstance(d.targets[0], ast.Name) and d.targets[0].id == base.id \
@@ -2176,7 +2276,9 @@ def _target_classes(fn: FuncNode, tv_loop: ast.For, sinks: T.List[T.Tuple[ast.AS
                 if g is None or '*' in g:
                     raise Undecided(f'{qn}: unwrapping `{short(d)}` is not guarded by an isinstance test on `{base.id}`')
                 for k in sorted(g):
-                    out.setdefault(f'{role} (the .{d.value.attr} of a {k})', set()).update(cls)
+                    for r1 in role.split('+'):
+                        out.setdefault(f'{r1} (the .{d.value.attr} of a {k})', set()).update(cls)
+    _R2E_LOC.pop()
     return out
 
 
